@@ -155,6 +155,8 @@ def extract_default(
         default = int(default)
     elif default in frozenset(("True", "False")):
         default = literal_eval(default)
+    elif default == "None":
+        default = NoneStr  # the None marker of the IR, not the string "None"
     else:
         with suppress(ValueError):
             default = float(default)
